@@ -1,5 +1,6 @@
 (* props/C12.v -- C12: optional data validators accept exactly the valid data. *)
 From Geff Require Import Base GraphVal GraphValLemmas.
+From Geff Require Import SylvesterLemmas.
 Open Scope Z_scope.
 Open Scope list_scope.
 
@@ -52,16 +53,88 @@ Theorem C12_sphere : forall ndim radii miss,
 Proof. exact sphere_ok_iff. Qed.
 Print Assumptions C12_sphere.
 
-(* ellipsoid: over the entries not flagged missing: a stack of square matrices whose side is
-   the number of spatial axes, each symmetric and positive-definite (Sylvester's criterion:
-   all leading principal minors positive -- this criterion is the model's definition of
-   positive-definite; its equivalence with x^T A x > 0 is classical and not re-proved here) *)
+(* ellipsoid, RESTATEMENT OF THE MODEL: the right-hand side still contains the model's own
+   booleans `symmetric` and `pos_def` (leading principal minors), so this theorem only unfolds
+   ellipsoid_ok into its five conjuncts (shape conditions + the per-matrix test over the entries
+   not flagged missing).  It does not by itself say "symmetric and positive-definite"; that is
+   C12_symmetric_spec, C12_posdef_1/_2/_3 and C12_ellipsoid_spec right below, which tie the two
+   booleans to m[i][j] = m[j][i] and to x^T m x > 0 for all non-zero x (Sylvester's criterion
+   proved in both directions for sides 1, 2, 3; sides >= 4 are covered by this restatement only). *)
 Theorem C12_ellipsoid : forall spatial ndim r c mats miss,
   ellipsoid_ok spatial ndim r c mats miss = true <->
   (0 < spatial)%nat /\ ndim = 3%nat /\ r = c /\ r = spatial /\
   Forall (fun m => symmetric r m = true /\ pos_def r m = true) (present miss mats).
 Proof. exact ellipsoid_ok_iff. Qed.
 Print Assumptions C12_ellipsoid.
+
+(* the boolean symmetry test is entrywise symmetry, for every side n *)
+Theorem C12_symmetric_spec : forall n m,
+  symmetric n m = true <-> (forall i j, (i < n)%nat -> (j < n)%nat -> mat_get m i j = mat_get m j i).
+Proof. exact symmetric_iff. Qed.
+Print Assumptions C12_symmetric_spec.
+
+(* Sylvester's criterion, both directions, against the quadratic form over the integer vectors
+   (SylvesterLemmas.v: qform n m x = sum_{i,j<n} x_i m_ij x_j; pd_spec n m = forall x of length n
+   with a non-zero entry, 0 < qform n m x; integer vectors suffice for an integer matrix, see the
+   head of SylvesterLemmas.v).  No shape hypothesis: a short/ragged m is read as padded with zeros
+   by det, leading and mat_get alike. *)
+Theorem C12_posdef_1 : forall m,
+  pos_def 1 m = true <->
+  (forall x, length x = 1%nat -> (exists i, nth i x 0 <> 0) -> 0 < qform 1 m x).
+Proof. exact sylvester_1. Qed.
+Print Assumptions C12_posdef_1.
+
+Theorem C12_posdef_2 : forall m,
+  (forall i j, (i < 2)%nat -> (j < 2)%nat -> mat_get m i j = mat_get m j i) ->
+  (pos_def 2 m = true <->
+   (forall x, length x = 2%nat -> (exists i, nth i x 0 <> 0) -> 0 < qform 2 m x)).
+Proof. exact sylvester_2. Qed.
+Print Assumptions C12_posdef_2.
+
+Theorem C12_posdef_3 : forall m,
+  (forall i j, (i < 3)%nat -> (j < 3)%nat -> mat_get m i j = mat_get m j i) ->
+  (pos_def 3 m = true <->
+   (forall x, length x = 3%nat -> (exists i, nth i x 0 <> 0) -> 0 < qform 3 m x)).
+Proof. exact sylvester_3. Qed.
+Print Assumptions C12_posdef_3.
+
+(* ellipsoid against the declarative notions, for at most three spatial axes: over the entries
+   not flagged missing, a stack of square matrices whose side is the number of spatial axes, each
+   entrywise symmetric with a positive quadratic form on every non-zero vector *)
+Theorem C12_ellipsoid_spec : forall spatial ndim r c mats miss, (r <= 3)%nat ->
+  (ellipsoid_ok spatial ndim r c mats miss = true <->
+   (0 < spatial)%nat /\ ndim = 3%nat /\ r = c /\ r = spatial /\
+   Forall (fun m => sym_spec r m /\ pd_spec r m) (present miss mats)).
+Proof. exact ellipsoid_ok_spec. Qed.
+Print Assumptions C12_ellipsoid_spec.
+
+(* "the entries not flagged missing" (present, used by C12_sphere / C12_ellipsoid / C12_ellipsoid_spec): with one flag per
+   row it is exactly the rows whose flag is false.  DOMAIN NOTE: for a mask of another length numpy raises IndexError
+   (boolean index of the wrong size) while keep_present truncates (keep_present_short in SylvesterLemmas.v); the
+   harness never generates such a mask and structure validation rejects it in a store, so the model is used only
+   under the length hypothesis of this theorem. *)
+Theorem C12_present_spec : forall (miss : list bool) (rows : list matrix) r,
+  length miss = length rows ->
+  (In r (present (Some miss) rows) <-> exists i, nth_error miss i = Some false /\ nth_error rows i = Some r).
+Proof. intros miss rows r. exact (keep_present_In miss rows r). Qed.
+Print Assumptions C12_present_spec.
+
+(* non-vacuity of the five theorems above: the hypotheses hold for concrete matrices on which the
+   booleans take both values; an explicit vector with x^T m x <= 0 for each rejected one
+   (diag(1,0): e2 gives 0; [[1,2],[2,1]]: (1,-1) gives -2; diag(1,1,0): e3 gives 0), and the
+   model reads a ragged matrix as padded with zeros *)
+Example C12_sylvester_nonvacuous :
+  symmetric 3 [[2; -1; 0]; [-1; 2; -1]; [0; -1; 2]] = true /\ symmetric 2 [[1; 2]; [3; 1]] = false /\
+  pos_def 1 [[3]] = true /\ pos_def 1 [[0]] = false /\
+  pos_def 2 [[2; -1]; [-1; 2]] = true /\ pos_def 2 [[1; 0]; [0; 0]] = false /\ qform 2 [[1; 0]; [0; 0]] [0; 1] = 0 /\
+  pos_def 2 [[1; 2]; [2; 1]] = false /\ qform 2 [[1; 2]; [2; 1]] [1; -1] = -2 /\
+  pos_def 3 [[2; -1; 0]; [-1; 2; -1]; [0; -1; 2]] = true /\ qform 3 [[2; -1; 0]; [-1; 2; -1]; [0; -1; 2]] [1; 1; 1] = 2 /\
+  pos_def 3 [[1; 0; 0]; [0; 1; 0]; [0; 0; 0]] = false /\ qform 3 [[1; 0; 0]; [0; 1; 0]; [0; 0; 0]] [0; 0; 1] = 0 /\
+  pos_def 2 [[1]; [0; 1]] = true /\ symmetric 2 [[1]; [0; 1]] = true /\
+  ellipsoid_ok 2 3 2 2 [[[2; -1]; [-1; 2]]; [[1; 0]; [0; 0]]] (Some [false; true]) = true /\
+  ellipsoid_ok 2 3 2 2 [[[2; -1]; [-1; 2]]; [[1; 0]; [0; 0]]] None = false /\
+  present (Some [false; true; false]) [[[1]]; [[0]]; [[2]]] = [[[1]]; [[2]]].
+Proof. vm_compute. repeat split. Qed.
 
 (* dispatch: validate_data raises iff an enabled validator whose property is declared fails;
    in particular a validator that is not enabled, or whose property is undeclared, never raises *)
